@@ -1,5 +1,5 @@
 From Flocq Require Import Core BinarySingleNaN.
-From Tetl Require Import Lib.Base C12.Model C12.Spec C12.FModel C12.UModel C12.USpec.
+From Tetl Require Import Lib.Base C12.Model C12.Spec C12.FModel C12.UModel C12.USpec C12.FGuard.
 Require Extraction.
 Require Import ExtrOcamlBasic.
 Extraction Language OCaml.
@@ -13,7 +13,7 @@ Extraction "C12_model.ml" wire_anchor
   cast_spec floor_spec ceil_spec round_spec abs_spec cnum cden ticks in_common
   plus_spec minus_spec div_spec mod_spec eq_spec lt_spec typedefs_spec
   d_of_Z enc64 dec64 fcast_m fconv_m fcast_spec fspec_ok
-  d_int_of fsrc_ok dd_cast_m di_cast_m di_floor_m di_ceil_m di_round_m dd_plus_m dd_minus_m dd_div_m dd_lt_m dd_eq_m
+  d_int_of fsrc_ok farith_ok dd_cast_m di_cast_m di_floor_m di_ceil_m di_round_m dd_plus_m dd_minus_m dd_div_m dd_lt_m dd_eq_m
   id_plus_m id_minus_m id_lt_m id_eq_m di_minus_m di_lt_m is_mul_m is_div_m ds_mul_m ds_div_m
   rty_ok rmin rmax cvt common_rep cr3 ucommon_m uconv_m uconvertible_m ucast_m uadd_m usub_m udiv_m umod_m
   ueq_m une_m ult_m ule_m ugt_m uge_m uneg_m uuplus_m uinc_m udec_m uadd_assign_m usub_assign_m umul_assign_m
